@@ -46,11 +46,29 @@ where
 
 def select (ind : List Nat) (ds : List α) : List α := selectFrom 0 ind ds
 
+/-- what `main()` does with the index arguments before the walk: `std::sort`, then `std::unique` + erase. -/
+def insertSorted (i : Nat) : List Nat → List Nat
+  | [] => [i]
+  | j :: js => if i ≤ j then i :: j :: js else j :: insertSorted i js
+
+def sortIndices (args : List Nat) : List Nat := args.foldr insertSorted []
+
+/-- `std::unique`: drop an element equal to its predecessor. -/
+def uniqAdjacent : List Nat → List Nat
+  | [] => []
+  | [a] => [a]
+  | a :: b :: rest => if a = b then uniqAdjacent (b :: rest) else a :: uniqAdjacent (b :: rest)
+
+def prepare (args : List Nat) : List Nat := uniqAdjacent (sortIndices args)
+
+/-- the tool's selection for the index arguments as typed (`N`, and `M-N` expanded to M..N), in any order. -/
+def selectArgs (args : List Nat) (ds : List α) : List α := select (prepare args) ds
+
 /-- `docenc [indices]` on a byte stream: the base64 lines written to stdout. -/
 def encode (nul : Bool) (ind : List Nat) (input : List UInt8) : List UInt8 :=
   let docs := if nul then docsNul (splitRecords 0 PV.Gen.docencEncodeStripCr input)
               else docsNl (splitRecords 10 PV.Gen.docencEncodeStripCr input) []
-  unlines ((select ind docs).map PV.Base64.encode)
+  unlines ((selectArgs ind docs).map PV.Base64.encode)
 
 /-- `docenc -d [indices]`: decode every selected line, each followed by the separator.
     `none` = an exception (foreign byte / length error) terminated the program. -/
@@ -63,6 +81,6 @@ def decodeLines (sep : UInt8) : List (List UInt8) → Option (List UInt8)
     | .ok d => (decodeLines sep ls).map (fun rest => d ++ [sep] ++ rest)
 
 def decode (nul : Bool) (ind : List Nat) (input : List UInt8) : Option (List UInt8) :=
-  decodeLines (if nul then 0 else 10) (select ind (splitRecords 10 true input))
+  decodeLines (if nul then 0 else 10) (selectArgs ind (splitRecords 10 true input))
 
 end PV.Docenc
